@@ -32,6 +32,7 @@ type Gate struct {
 	Faults      bool  // fault choices enabled on acquire/release-path calls
 	Dead        *bool // when *Dead, every call vanishes (the process died)
 	RenewFaults bool  // fault choices on CasByVersion (renewal path)
+	ReplyPoint  bool  // a scheduling point between the storage's effect and the caller seeing the reply (the reply is "in transit")
 	HonourCtx   bool  // refuse a call whose context has ended, like a networked storage does (kvs/inmem ignores contexts)
 	Calls       *[]string
 	OnCall      func(g *Gate, op string)
@@ -82,6 +83,9 @@ func (g *Gate) Create(ctx context.Context, r kvs.Record) (string, error) {
 	}
 	v, err := g.Inner.Create(ctx, r)
 	g.log("Create -> %v", err)
+	if g.ReplyPoint {
+		vsched.Point(vsched.KEnv, g.Name+".Create reply", nil)
+	}
 	if lp {
 		return "", ErrInjected
 	}
@@ -158,6 +162,9 @@ func (g *Gate) Delete(ctx context.Context, key string) error {
 	}
 	err := g.Inner.Delete(ctx, key)
 	g.log("Delete -> %v", err)
+	if g.ReplyPoint {
+		vsched.Point(vsched.KEnv, g.Name+".Delete reply", nil)
+	}
 	if lp {
 		return ErrInjected
 	}
@@ -227,6 +234,8 @@ type Scenario struct {
 	Shutdown int // -1: none; else index of the provider that is shut down by a pseudo thread
 	Lease    time.Duration
 	Residue  bool // C04: run residue probes at the end
+	// ReplyPoint: see Gate.ReplyPoint
+	ReplyPoint bool
 	// HonourCtx: the storage refuses calls whose context has ended (kvs/inmem ignores contexts, networked storages do not)
 	HonourCtx bool
 	// Storage: "" / "inmem" (default) or "redis" (kvs/redis against an in-process miniredis; every Redis command
@@ -298,7 +307,7 @@ func (sc *Scenario) Build(obs *Obs) func() {
 		provs := make([]dist.LockProvider, sc.Topo.Providers)
 		gates := make([]*Gate, sc.Topo.Providers)
 		for i := range provs {
-			gates[i] = &Gate{Inner: inner(), Name: fmt.Sprintf("p%d", i), Faults: sc.Faults, HonourCtx: sc.HonourCtx, Calls: &obs.StorageCalls}
+			gates[i] = &Gate{Inner: inner(), Name: fmt.Sprintf("p%d", i), Faults: sc.Faults, HonourCtx: sc.HonourCtx, ReplyPoint: sc.ReplyPoint, Calls: &obs.StorageCalls}
 			provs[i] = dist.NewKvsLockProvider(gates[i], "/locks/")
 		}
 		lockers := make([]gsync.Locker, len(sc.Topo.ProviderOf))
